@@ -454,6 +454,13 @@ pub fn encode_with_dist_header_multi(terms: &[&OwnedTerm]) -> Result<Vec<u8>, En
 
     let atoms: Vec<&Atom> = atom_set.iter().copied().collect();
 
+    // a new cache entry carries its text behind a length of at most two bytes
+    if let Some(atom) = atoms.iter().find(|a| a.name.len() > u16::MAX as usize) {
+        return Err(EncodeError::AtomTooLarge {
+            size: atom.name.len(),
+        });
+    }
+
     let mut atom_index_map = HashMap::new();
     for (index, atom) in atoms.iter().enumerate() {
         atom_index_map.insert(*atom, index as u8);
